@@ -29,6 +29,8 @@ pub enum Op {
     /// harness: wait until no other task can run (quiescence)
     Settle,
     Other { fd: i32, what: u32 },
+    /// the return of a transmission (a pure preemption opportunity)
+    After,
 }
 
 #[derive(Clone, Copy, Debug, PartialEq, Eq)]
@@ -105,6 +107,7 @@ pub struct SchedState {
     pub context_switches: u32,
     key: libc::pthread_key_t,
     main_done: bool,
+    lonely_yields: u32,
 }
 
 static mut S: Option<SchedState> = None;
@@ -131,6 +134,7 @@ pub fn init(cfg: &Cfg) {
         context_switches: 0,
         key: 0,
         main_done: false,
+        lonely_yields: 0,
     };
     s.tasks[0].used = true;
     s.tasks[0].canon = 1;
@@ -284,7 +288,7 @@ fn op_enabled(s: &SchedState, t: usize) -> bool {
     unsafe {
         match task.pending {
             Op::None => false,
-            Op::Start | Op::Close { .. } | Op::EpollCtl { .. } | Op::Other { .. } => true,
+            Op::Start | Op::Close { .. } | Op::EpollCtl { .. } | Op::Other { .. } | Op::After => true,
             Op::Send { fd, nonblock } => nonblock || sock_send_enabled(fd),
             Op::Recv { fd, nonblock } => {
                 nonblock || raw::poll1(fd, libc::POLLIN | libc::POLLRDHUP) != 0
@@ -324,6 +328,26 @@ fn decide(me: usize) -> Option<(usize, Decision)> {
     }
     let nrun = alts.len();
     if nrun == 0 {
+        // nobody else can run: a task that merely yielded (polling loop, spin-then-park back-off)
+        // continues -- a yield with no other runnable task returns at once. Bounded, so that a pure
+        // spin loop on a condition nobody can establish is reported as a deadlock (livelock).
+        if s.lonely_yields < 300 {
+            let mut order: Vec<usize> = vec![me];
+            order.extend((0..s.ntasks).filter(|&t| t != me));
+            for t in order {
+                let k = &s.tasks[t];
+                if k.used && !k.finished && k.pending == Op::Yield && !alts.contains(&Alt::Run(t)) {
+                    alts.push(Alt::Run(t));
+                }
+            }
+            if !alts.is_empty() {
+                s.lonely_yields += 1;
+            }
+        }
+    } else {
+        s.lonely_yields = 0;
+    }
+    if alts.is_empty() {
         // quiescence: a settling task may continue
         let mut order: Vec<usize> = vec![me];
         order.extend((0..s.ntasks).filter(|&t| t != me));
@@ -472,6 +496,7 @@ fn objs_of(op: Op) -> (u64, [u64; 2]) {
         Op::Yield => (10, [0, 0]),
         Op::Settle => (11, [0, 0]),
         Op::Other { fd, what } => (12 + what as u64, [interpose::obj_of(fd).0, 0]),
+        Op::After => (99, [0, 0]),
     }
 }
 
